@@ -490,6 +490,10 @@ DIRECTED = [
 
 
 def run(ctx):
+    if not ctx.quick and ctx.shard == ctx.nshards - 1:
+        # extra workload: the repository's own tests as a generator of realistic API events under the sentinels
+        from rv.suite_workload import run_suite_under_sentinels
+        run_suite_under_sentinels(ctx)
     if ctx.shard == 0:
         for cls, init, pos, steps in DIRECTED:
             ctx.run_case(lambda c, k: episode(c, k), {'cls': cls, 'init': init, 'pos': pos, 'steps': [list(x) for x in steps]})
